@@ -1,9 +1,11 @@
 package checks
 
 import (
+	"bytes"
 	"context"
 	"fmt"
 	"math/rand"
+	"net"
 	"time"
 
 	"verifharness/ev"
@@ -223,17 +225,31 @@ func c13UDP(run *ev.Run, p c13P, cs ev.Case) (string, func()) {
 		cssrv.Data = c13AlignedSuites()
 	}
 	sensorRec, sensorDev, dcmiDev := c13Devices(r)
-	b.Handler = refbmc.Chain(repo.Handle, cssrv.Handle, sensorDev.Handle, dcmiDev.Handle, refbmc.Fixed(6, 0x37, 0, rbytes(r, 16)),
+	ownGUID := rbytes(r, 16)
+	b.Handler = refbmc.Chain(repo.Handle, cssrv.Handle, sensorDev.Handle, dcmiDev.Handle, refbmc.Fixed(6, 0x37, 0, ownGUID),
 		refbmc.Fixed(6, 0x01, 0, []byte{0x20, 0x81, 0x03, 0x15, 0x02, 0xbf, 0x57, 0x01, 0x00, 0x34, 0x12}), refbmc.Fixed(6, 0x3c, 0, nil))
 	listen := udpbmc.Listen
 	if (p.Seed+int64(len(p.Step)*3+len(p.Fault)))%5 == 0 {
 		listen = udpbmc.ListenV6 // a fifth of the cases run over the IPv6 loopback
 	}
 	srv, err := listen(b)
+	if p.Step == "dead-port-sessionless" || p.Step == "dead-port-open" {
+		// the port has to stay dead once this server is closed: nothing that binds to port 0 -
+		// another case of this run, another check running next to it - may be handed it
+		if err == nil {
+			srv.Close()
+		}
+		var reserved bool
+		srv, reserved, err = udpbmc.ListenOutsideEphemeral(b, (p.Seed+int64(len(p.Step)*3+len(p.Fault)))%5 == 0)
+		if reserved {
+			run.Observe("c13.dead-port-outside-ephemeral-range", 1)
+		}
+	}
 	if err != nil {
 		return "inconclusive", nil
 	}
 	defer srv.Close()
+	deadAddr := srv.Conn.LocalAddr().(*net.UDPAddr)
 	timeout := time.Duration(p.Timeout) * time.Millisecond
 	var st *bmc.V2SessionlessTransport
 	if (p.Seed+int64(len(p.Step)+len(p.Fault)))%2 == 0 {
@@ -441,6 +457,7 @@ func c13UDP(run *ev.Run, p c13P, cs ev.Case) (string, func()) {
 	}()
 	start := time.Now()
 	var callErr error
+	var gotGUID []byte
 	sdrCount := -1
 	done := make(chan struct{})
 	var pv any
@@ -450,7 +467,9 @@ func c13UDP(run *ev.Run, p c13P, cs ev.Case) (string, func()) {
 		pv, stk = safe(func() {
 			switch p.Step {
 			case "sessionless", "after-expired", "dead-port-sessionless", "after-long-ctx", "after-cancelled":
-				_, callErr = st.GetSystemGUID(ctx)
+				var g [16]byte
+				g, callErr = st.GetSystemGUID(ctx)
+				gotGUID = g[:]
 			case "discovery", "open", "rakp1", "rakp3", "wrongpw", "dead-port-open":
 				_, callErr = st.NewV2Session(ctx, opts)
 			case "suites-idx1", "suites-idx2", "suites-again":
@@ -523,6 +542,24 @@ func c13UDP(run *ev.Run, p c13P, cs ev.Case) (string, func()) {
 	// authentic and matching - during a later call: which call a delivery belongs to cannot be told from
 	// the sending side, so that fault is left out here; the stale same-command reply itself is the open
 	// finding recorded under C11)
+	if callErr == nil && (p.Step == "dead-port-sessionless" || p.Step == "dead-port-open") {
+		// answered although this case's BMC is gone: before that is held against the library, make
+		// sure no other responder has taken the port over in the meantime (a server of another
+		// harness process bound to the same explicit port) - it holds the port now, or the GUID
+		// returned is neither this BMC's nor empty
+		probe, perr := net.ListenUDP("udp", deadAddr)
+		if perr == nil {
+			probe.Close()
+		}
+		foreign := perr != nil
+		if p.Step == "dead-port-sessionless" && !bytes.Equal(gotGUID, ownGUID) && !bytes.Equal(gotGUID, make([]byte, 16)) {
+			foreign = true
+		}
+		if foreign {
+			run.Observe("c13.dead-port-taken-over", 1)
+			return "inconclusive", nil
+		}
+	}
 	if callErr == nil && validSent == validBefore && p.Fault != "late" && p.Fault != "duplicate" {
 		run.Violation("C13:success-without-valid-response:"+p.Step, fmt.Sprintf("%s: call reported success although the BMC sent no valid response while it ran (datagrams received by the BMC: %d)", desc, srv.Received.Load()), cs, nil)
 		return "violated", nil
